@@ -41,7 +41,7 @@ for pr in props:
         "evidence_file": "/verif/evidence/%s.json" % pid,
         "replay_cmd_template": "./check replay {path}",
         "engine": "ledger",
-        "level_claimed": {"category": "model_checking" if pid == "C12" else "proof", "text": TEXT[pid], "design_ref": "DESIGN.md sections A, B and 4 (%s); OBLIGATIONS.md" % pid},
+        "level_claimed": {"category": "model_checking" if pid in ("C12", "C08") else "proof", "text": TEXT[pid], "design_ref": "DESIGN.md sections A, B and 4 (%s); OBLIGATIONS.md" % pid},
         "level_note": "trusted: Kani 0.68 / CBMC 6.11 / kissat, Verus 0.2026.09.13 / Z3, rustc, the reference semantics kani/refspec.rs; bounded obligations and every assumption (A-CAP, A-ZOBRIST, A-HASHMAP, A-ARRAYVEC, A-ROOK-MASK in quick) are listed in the evidence file and are not counted as discharged",
         "technique": "contract-based deductive verification of the real code: harness-stated function contracts discharged by Kani/CBMC on a scratch copy of the working tree, Verus on functions extracted verbatim on every run, obligation ledger linking imported contracts",
     })
